@@ -77,7 +77,9 @@ void _GD_Flush(DIRFILE *D, gd_entry_t *E, int syn, int clo)
       }
       break;
     case GD_LINCOM_ENTRY:
-      for (i = 0; i < E->EN(lincom,n_fields); ++i)
+      /* stop at the first error: on a circular definition every level would
+       * otherwise descend into all its inputs */
+      for (i = 0; i < E->EN(lincom,n_fields) && !D->error; ++i)
         _GD_Flush(D, E->e->entry[i], syn, clo);
       break;
     case GD_MULTIPLY_ENTRY:
@@ -85,6 +87,8 @@ void _GD_Flush(DIRFILE *D, gd_entry_t *E, int syn, int clo)
     case GD_WINDOW_ENTRY:
     case GD_MPLEX_ENTRY:
       _GD_Flush(D, E->e->entry[1], syn, clo);
+      if (D->error)
+        break;
       /* fallthrough */
     case GD_LINTERP_ENTRY:
     case GD_BIT_ENTRY:
